@@ -225,6 +225,25 @@ theorem deadline_bound_aux {cfg : Config} {s s' : State} (hopen : s.timer.isSome
     · simp [handleTimer]
   · cases hst
 
+theorem late_token_aux {cfg : Config} {s s' : State} (htm : s.timer = none) (hp : s.pending = 0)
+    (hst : step cfg s .deliver = some s') :
+    s'.fires = s.fires ∧ s'.timer = some (s.now + cfg.initial) ∧ s'.pending = 0 ∧
+    ∃ s'', exec cfg s' [.top, .advance (s.now + cfg.initial), .expire] = some s'' ∧
+      s''.fires = s.fires ∧ s''.timer = none := by
+  simp only [step] at hst
+  split at hst
+  · cases hst
+    rw [handleInput_none htm]
+    have hf : fire { s with tokens := s.tokens - 1, loop := Loop.top, timer := some (s.now + cfg.initial), armedAt := s.now, wk := 0 } = { s with tokens := s.tokens - 1, loop := Loop.top, timer := some (s.now + cfg.initial), armedAt := s.now, wk := 0 } := by
+      simp [fire, hp]
+    rw [hf]
+    refine ⟨by simp, by simp, by simpa using hp, ?_⟩
+    refine ⟨handleTimer cfg { s with tokens := s.tokens - 1, loop := .sel, timer := some (s.now + cfg.initial), armedAt := s.now, wk := 0, now := s.now + cfg.initial }, ?_, ?_, ?_⟩
+    · simp [exec, step]
+    · simp [handleTimer, fire, hp]
+    · simp [handleTimer]
+  · cases hst
+
 /-! ### arithmetic range -/
 
 def Range (cfg : Config) (s : State) : Prop :=
